@@ -46,6 +46,8 @@ type udpScript struct {
 	dialErr  bool
 	peersOut []netip.AddrPort // what a conforming client learns from the accepted reply
 	v6       bool
+	reads    int  // datagrams handed out since the script was (re)set
+	runaway  bool // more than 100 datagrams of a persistent stream were consumed
 }
 
 type udpConn struct {
@@ -96,8 +98,22 @@ func peersBytes(n int, v6 bool) ([]byte, []netip.AddrPort) {
 func (c *udpConn) Read(p []byte) (int, error) {
 	c.s.mu.Lock()
 	defer c.s.mu.Unlock()
+	// a reply may consist of several datagrams ("a+b+c": one per Read, then
+	// silence) or of an endless stream ("a*": every Read returns one)
 	r := c.pending
-	c.pending = ""
+	if strings.HasSuffix(r, "*") {
+		r = strings.TrimSuffix(r, "*")
+		c.s.reads++
+		if c.s.reads > 100 {
+			c.s.runaway = true
+			return 0, errors.New("scripted: connection torn down by the harness after 100 datagrams")
+		}
+	} else if i := strings.IndexByte(r, '+'); i >= 0 {
+		c.pending = r[i+1:]
+		r = r[:i]
+	} else {
+		c.pending = ""
+	}
 	if r == "" || r == "timeout" || len(c.lastReq) < 16 {
 		return 0, errTimeout
 	}
@@ -140,6 +156,9 @@ func (c *udpConn) Read(p []byte) (int, error) {
 		hdr(action, tid^0x5555)
 		body(1800, 1, 0)
 		c.s.peersOut = nil
+	case "foreignconnect": // a (late, duplicate, or forged) connect reply carrying another transaction id
+		hdr(0, tid^0x5555)
+		out = binary.BigEndian.AppendUint64(out, 0x1122334455667788)
 	case "wrongaction":
 		hdr(action^1, tid)
 		body(1800, 1, 0)
@@ -212,12 +231,17 @@ func sortedAddrs(l []netip.AddrPort) string {
 	return strings.Join(s, " ")
 }
 
+// announceProxy is the proxy the announces go through ("" = direct, one request per address family).
+var announceProxy string
+
+const c15Proxy = "http://proxy.example:3128"
+
 // announce runs one Announce with panic capture and returns what was learnt.
 func announce(tr Tracker) (learnt []netip.AddrPort, err error, pan any) {
 	var mu sync.Mutex
 	func() {
 		defer func() { pan = recover() }()
-		err = tr.Announce(context.Background(), bytes.Repeat([]byte{0xAB}, 20), []byte("-ST0001-abcdefghijkl"), 50, 1<<20, 6881, 6882, "",
+		err = tr.Announce(context.Background(), bytes.Repeat([]byte{0xAB}, 20), []byte("-ST0001-abcdefghijkl"), 50, 1<<20, 6881, 6882, announceProxy,
 			func(a netip.AddrPort) bool {
 				mu.Lock()
 				learnt = append(learnt, a)
@@ -258,8 +282,8 @@ func (h *c15) udpCase(r4, r6 []string) {
 			return
 		}
 	}
-	s4.k, s4.contacts, s4.times, s4.peersOut = 0, 0, nil, nil
-	s6.k, s6.contacts, s6.times, s6.peersOut = 0, 0, nil, nil
+	s4.k, s4.contacts, s4.times, s4.peersOut, s4.reads, s4.runaway = 0, 0, nil, nil, 0, false
+	s6.k, s6.contacts, s6.times, s6.peersOut, s6.reads, s6.runaway = 0, 0, nil, nil, 0, false
 	learnt, err, pan := announce(tr)
 	if pan != nil {
 		h.res.Violate("C15/udp-panic/"+firstLineS(fmt.Sprint(pan)), fmt.Sprintf("Announce panicked: %v%s", pan, where), rp)
@@ -280,6 +304,9 @@ func (h *c15) udpCase(r4, r6 []string) {
 				h.res.Violate("C15/udp-peers-from-rejected-reply", fmt.Sprintf("peer %v was learnt although no accepted reply encodes it%s", a, where), rp)
 			}
 		}
+	}
+	if s4.runaway || s6.runaway {
+		h.res.Violate("C15/udp-listens-for-ever", fmt.Sprintf("Announce consumed more than 100 datagrams of a tracker that keeps sending, without returning: the announce (and the tracker's busy state) lasts as long as the tracker pleases%s", where), rp)
 	}
 	if st, _ := tr.GetState(); st == Busy {
 		h.res.Violate("C15/stuck-busy", fmt.Sprintf("after the announce returned the tracker is still in the busy state%s", where), rp)
@@ -438,7 +465,14 @@ func (h *c15) discipline(kind string, steps []string) {
 	hs := &httpScript{}
 	s4 := &udpScript{}
 	s6 := &udpScript{v6: true}
-	if kind == "http" {
+	announceProxy = ""
+	defer func() { announceProxy = "" }()
+	if kind == "http-proxy" {
+		// a proxied torrent: a single request, through the proxy's client
+		httpclient.VerifInstall("", c15Proxy, hs)
+		announceProxy = c15Proxy
+		tr = New("http://tracker.example/announce")
+	} else if kind == "http" {
 		for _, n := range []string{"", "tcp4", "tcp6"} {
 			httpclient.VerifInstall(n, "", hs)
 		}
@@ -464,15 +498,23 @@ func (h *c15) discipline(kind string, steps []string) {
 			vtime.Advance(time.Duration(sec) * time.Second)
 		case "announce": // announce:<interval seconds, or "err">
 			var interval int64 = -1
-			if f[1] != "err" {
+			if f[1] != "err" && f[1] != "fail" && f[1] != "garbage" && f[1] != "500" {
 				fmt.Sscanf(f[1], "%d", &interval)
 			}
-			if kind == "http" {
+			if kind == "http" || kind == "http-proxy" {
 				hs.mu.Lock()
 				hs.contacts, hs.times = 0, nil
-				if interval >= 0 {
+				hs.status = 0
+				switch {
+				case interval >= 0:
 					hs.body, hs.fail = []byte(fmt.Sprintf("d8:intervali%de5:peers0:e", interval)), false
-				} else {
+				case f[1] == "fail":
+					hs.body, hs.fail = []byte("d14:failure reason4:nopee"), false
+				case f[1] == "garbage":
+					hs.body, hs.fail = []byte("<html>not bencoding"), false
+				case f[1] == "500":
+					hs.body, hs.fail, hs.status = []byte("oops"), false, 500
+				default:
 					hs.fail = true
 				}
 				hs.mu.Unlock()
@@ -494,7 +536,7 @@ func (h *c15) discipline(kind string, steps []string) {
 				return
 			}
 			contacted := false
-			if kind == "http" {
+			if kind == "http" || kind == "http-proxy" {
 				contacted = hs.contacts > 0
 			} else {
 				contacted = s4.contacts+s6.contacts > 0
@@ -516,6 +558,11 @@ func (h *c15) discipline(kind string, steps []string) {
 				lastContact = now
 				if interval >= 0 {
 					lastInterval = secondsSaturated(interval)
+				} else if f[1] == "fail" && kind != "udp" {
+					// the tracker's latest reply is a failure without "retry in": it
+					// announces no interval any more (the code retries after its
+					// 15-minute default); only the five-minute floor applies
+					lastInterval = 0
 				}
 			}
 		}
@@ -613,6 +660,18 @@ func TestVerifC15(t *testing.T) {
 			}
 		}
 	}
+	// trackers that send more than one datagram per request, or never stop sending
+	S := []string{"foreigntid*", "foreignconnect*", "wrongaction*", "short4*", "short12*", "garbage*", "foreigntid+foreigntid+ok:1800:1", "foreignconnect+foreignconnect+foreignconnect+foreignconnect+foreignconnect+ok:1800:1", "foreignconnect+ok:1800:1", "short4+garbage+ok:1800:1", "ok:1800:1+ok:60:2"}
+	for _, a := range S {
+		if !mine() {
+			continue
+		}
+		for _, b := range append([]string{"timeout", "ok:1800:1"}, S...) {
+			h.udpCase([]string{a, b, "ok", "ok:1800:1"}, []string{"ok", "ok:900:2"})         // connect phase
+			h.udpCase([]string{"ok", a, b, "ok:1800:1"}, []string{"ok", "ok:900:2"})         // announce phase
+			h.udpCase([]string{"timeout", "timeout", "timeout", "timeout"}, []string{"ok", a, b, "ok:1800:1"}) // the other family
+		}
+	}
 	res.Sample(map[string]any{"udp4": []string{"foreigntid", "short12", "timeout", "ok", "ok:1800:74"}, "udp6": []string{"ok", "ok:900:2"}})
 	// HTTP bodies
 	p4, _ := peersBytes(3, false)
@@ -685,11 +744,13 @@ func TestVerifC15(t *testing.T) {
 	}
 	base := append([]string{}, steps...)
 	depth := 5
-	for _, kind := range []string{"http", "udp"} {
+	for _, kind := range []string{"http", "udp", "http-proxy"} {
 		steps = append([]string{}, base...)
 		ivs := intervals
 		if kind == "udp" {
 			ivs = intervalsUDP // the field is 32 bits wide
+		} else {
+			ivs = append(append([]string{}, intervals...), "fail", "garbage", "500")
 		}
 		for _, iv := range ivs {
 			steps = append(steps, "announce:"+iv)
